@@ -283,6 +283,8 @@ class Result:
 def evidence_dir():
     """evidence/ holds only runs against /repo; a run against another tree (VERIF_REPO, bin/seedtest) writes next to its build"""
     import vbuild
+    if os.environ.get("VERIF_EVIDENCE_DIR"):
+        return os.environ["VERIF_EVIDENCE_DIR"]       # exploratory runs (reduced scale) must not replace the committed evidence
     if os.path.abspath(vbuild.REPO) == "/repo":
         return os.path.join(VERIF, "evidence")
     return os.path.join(vbuild.BUILD, "evidence")
